@@ -700,6 +700,11 @@ func stepUpdate(d Doc, op *Op, r *Res, env Env) StepOut {
 		if act.Act == "set" && act.Body != nil && env.MaxDoc > 0 && len(*act.Body) > env.MaxDoc && r.Err == ETooBig {
 			return unchanged(d, "body")
 		}
+		if act.Act == "set" && act.Body == nil && env.MaxDoc > 0 && len(d.Body) > env.MaxDoc && r.Err == ETooBig {
+			// only the expiry changes, but the body it is written back with has outgrown the limit
+			// (appends are not checked against the whole body): refused, nothing changes
+			return unchanged(d, "body")
+		}
 		return fail(tags, "Update(%s) on %s failed with %s", act.Act, d.State(), r.Err)
 	}
 	// the result must be stored on exactly the version the final callback was shown
@@ -717,8 +722,8 @@ func stepUpdate(d Doc, op *Op, r *Res, env Env) StepOut {
 		if act.Body != nil {
 			n.Body = *act.Body
 		} else {
-			// body nil with an expiry: keeps the body shown
-			n.Body, n.HasBody = d.Body, d.HasBody
+			// body nil with an expiry: keeps the body shown, as JSON or raw as it was
+			n.Body, n.HasBody, n.JSON = d.Body, d.HasBody, d.JSON
 		}
 		if d.HasBody {
 			n.X = d.clone().X
